@@ -32,6 +32,7 @@ def run(ctx):
     # `children` view disagrees with the stored links right after a mutation
     from ..memo import rule_coherence
     rule_coherence(ctx, "W9")
+    linkrules.rule_W10_one_shot(ctx)
     linkrules.rule_W6(ctx)
     linkrules.rule_W8(ctx, typer)
     ctx.floor("W1", 10)
